@@ -19,7 +19,8 @@ func TestMain(m *testing.M) {
 	lib.Extra("rule", "rapid-generated Retry configurations (MaxRetries 1..8, InitialInterval 0..3 ms, real Multiplier 1..3, MaxInterval >= Initial up to +7 ms, RandomizationFactor 0..1, hook/logger on or off) "+
 		"x handler outcome scripts (fail^i then succeed, or fail forever; distinct error and outputs per attempt) in three modes: plain, message context cancelled by the handler during attempt j, MaxElapsedTime. "+
 		"Oracle = model of call count, returned outputs/error identity, hook numbering, hook delay within the configured back-off band, measured gap >= reported delay (lower bound only). "+
-		"Non-trivial: at least one retry happened (>=2 handler calls) or an early give-up was exercised. Distinct by canonical case encoding.")
+		"Non-trivial: at least one retry happened (>=2 handler calls) or an early give-up was exercised. Distinct by canonical case encoding."+
+		" OnRetryHook is counted in every mode: once per failed retry (or once per retry), also when the context ended during a retry.")
 	lib.Extra("assumptions", []string{
 		"wall-clock is used only for lower bounds (a timer never fires early) and for a generous upper bound of MaxElapsedTime+250 ms on the start of any attempt",
 		"in the ctx-cancel mode the interval is 300 ms with RandomizationFactor <= 0.5 so that the cancelled context and the back-off timer are never ready at the same instant",
